@@ -118,6 +118,23 @@ def run_shard(shard, ctx):
                     ctx.hist["undecided(parse or query raises; owned by C01/C08/C15)"] += 1
                 elif got != "monotone":
                     e1.report(ctx, "monotone", text, src(strict), ["monotone"], got, "resolution %d tempo map %r (a tempo held for more ticks than its value in thousandths)" % (r, [list(x) for x in tempo]), extra_case=dict(strict=strict))
+        # spans that last exactly one or two whole seconds (the float product often falls one ulp short)
+        R = 100 if r == 1 else 192
+        for bpm in range(30, 301):
+            for k in (1, 2):
+                if (k * bpm * R) % 60 or k * bpm * R // 60 > 700:
+                    continue
+                gap = k * bpm * R // 60
+                tempo = [(0, bpm * 1000), (gap, 120000)]
+                text = build(R, tempo)
+                got = e1.run_probe(probes[True], text)
+                ctx.case((R, tuple(tempo)), sample=lambda: dict(resolution=R, tempo=[list(x) for x in tempo]))
+                ctx.evaluations += 3 * (gap + 5)
+                ctx.hist["whole_second_spans"] += 1
+                if isinstance(got, list) and got[:1] == ["raises"]:
+                    ctx.hist["undecided(parse or query raises; owned by C01/C08/C15)"] += 1
+                elif got != "monotone":
+                    e1.report(ctx, "monotone", text, src(True), ["monotone"], got, "resolution %d tempo map %r (a span of exactly %d s)" % (R, [list(x) for x in tempo], k), extra_case=dict(strict=True))
         return
     if shard[0] == "unsorted":
         _unsorted(ctx, shard[1])
